@@ -7,10 +7,11 @@ Open Scope string_scope.
 
 (* one injection: host nodes at that moment, OCI spec handed in (None: nil), request; observed: unresolved names returned,
    outcome (0 ok, 1 error, 2 panic), OCI spec afterwards; whether the cached Specs and devices (JSON image through the query
-   API) are identical to those before the first step; whether every cached Spec could be written back and read back equal *)
+   API) are identical to those before the first step; whether every cached Spec could be written back and read back equal;
+   whether the slice of names handed to InjectDevices still holds the request as it was *)
 Inductive step02 :=
   Inj (host : list (string * (string * Z * Z))) (o : option oci) (names : list string)
-      (unres : list string) (outcome : nat) (o' : option oci) (cache_same writeback_ok : bool).
+      (unres : list string) (outcome : nat) (o' : option oci) (cache_same writeback_ok args_same : bool).
 Inductive case02 := Case02 (fs : fsview) (steps : list step02).
 
 Definition res_eqb (a b : list string * nat * option oci) : bool :=
@@ -18,7 +19,7 @@ Definition res_eqb (a b : list string * nat * option oci) : bool :=
 
 Definition corr_step (c : cache) (s : step02) : bool :=
   match s with
-  | Inj host o names unres outcome o' _ _ => res_eqb (inject (host_of host) c o names) (unres, outcome, o')
+  | Inj host o names unres outcome o' _ _ _ => res_eqb (inject (host_of host) c o names) (unres, outcome, o')
   end.
 Definition corr02 (c : case02) : bool :=
   match c with Case02 fs steps => let ch := refresh fs in forallb (corr_step ch) steps end.
@@ -32,8 +33,8 @@ Definition host_eqb (a b : list (string * (string * Z * Z))) : bool :=
 
 Definition oracle_step (fl : list lfile) (s : step02) : bool :=
   match s with
-  | Inj host o names unres outcome o' same wb =>
-      same && wb && negb (Nat.eqb outcome 2) &&
+  | Inj host o names unres outcome o' same wb args =>
+      same && wb && args && negb (Nat.eqb outcome 2) &&
       match o with
       | None => res_eqb (unres, outcome, o') (names, 1, None)
       | Some o0 =>
@@ -49,11 +50,11 @@ Definition oracle_step (fl : list lfile) (s : step02) : bool :=
 (* C14: equal requests on equal OCI specs with equal host nodes give equal results *)
 Definition same_request (a b : step02) : bool :=
   match a, b with
-  | Inj h1 o1 n1 _ _ _ _ _, Inj h2 o2 n2 _ _ _ _ _ => host_eqb h1 h2 && option_eqb oci_eqb o1 o2 && ls_eqb n1 n2
+  | Inj h1 o1 n1 _ _ _ _ _ _, Inj h2 o2 n2 _ _ _ _ _ _ => host_eqb h1 h2 && option_eqb oci_eqb o1 o2 && ls_eqb n1 n2
   end.
 Definition same_result (a b : step02) : bool :=
   match a, b with
-  | Inj _ _ _ u1 c1 r1 _ _, Inj _ _ _ u2 c2 r2 _ _ => res_eqb (u1, c1, r1) (u2, c2, r2)
+  | Inj _ _ _ u1 c1 r1 _ _ _, Inj _ _ _ u2 c2 r2 _ _ _ => res_eqb (u1, c1, r1) (u2, c2, r2)
   end.
 Fixpoint repeatable (l : list step02) : bool :=
   match l with
